@@ -126,31 +126,68 @@ def make_plan(run_seed: int, profile: Dict[str, Any]) -> Dict[str, Any]:
         "fault_bias": profile.get("fault_bias", {}),
         "caps": {"op_work": profile.get("op_work", 1_500_000), "total_work": profile.get("total_work", 12_000_000)},
     }
-    if profile.get("api_ops") and rng.random() < profile.get("derive_prob", 0.4):
-        add_derived_solver(plan, rng)
+    api = bool(profile.get("api_ops"))
+    if rng.random() < profile.get("derive_prob", 0.4 if api else 0.0):
+        add_derived_solver(plan, rng, api, profile.get("derive_grammar_prob", 0.3))
+    if not api and rng.random() < profile.get("start_symbol_prob", 0.12):
+        use_start_symbol(plan, rng)
     return plan
 
 
-def add_derived_solver(plan: Dict[str, Any], rng: random.Random) -> None:
+def add_derived_solver(plan: Dict[str, Any], rng: random.Random, api: bool, grammar_prob: float) -> None:
     """A further solver object obtained from an existing one by the public
-    `copy_without_queue(formula=...)`: same grammar and settings, another constraint.
-    The family shares whatever state ISLa lets copies share; inputs accepted by one
-    member are afterwards presented to the other (both directions)."""
+    `copy_without_queue(formula=..., [grammar=...])`: same settings, another constraint
+    and, sometimes, another grammar of the same family (same nonterminal names, other
+    expansions).  The family shares whatever state ISLa lets copies share.  With the
+    same grammar, inputs accepted by one member are afterwards presented to the other
+    (both directions)."""
     scenarios = plan["scenarios"]
     src = rng.randrange(len(scenarios))
     base = scenarios[src]
-    formula = gen_formula(base["grammar"], rng, base["family"])
+    if base.get("start_symbol"):
+        return
+    grammar = base["grammar"]
+    other_grammar = False
+    if rng.random() < grammar_prob:
+        fam2, g2 = make_grammar(rng, base["family"])
+        if fam2 == base["family"] and g2 != grammar:
+            grammar, other_grammar = g2, True
+    formula = gen_formula(grammar, rng, base["family"])
     new_idx = len(scenarios)
-    scenarios.append(dict(base, formula=formula, formula_text=print_formula(formula), derived_from=src))
+    scenarios.append(dict(base, grammar=grammar, formula=formula, formula_text=print_formula(formula), derived_from=src,
+                          derived_grammar=other_grammar))
     ops = plan["ops"]
     first = next((k for k, op in enumerate(ops) if op[0] == "solve" and op[1] == src), len(ops) - 1)
     at = rng.randint(first + 1, len(ops))
     tail = [["derive", new_idx, src]]
+    kinds = ["check", "check", "parse", "parse", "check_mut", "parse_mut", "solve", "repair"] if api else ["solve"]
     for _ in range(rng.randint(3, 7)):
         who = rng.choice([src, new_idx, new_idx])
-        kind = rng.choice(["check", "check", "parse", "parse", "check_mut", "parse_mut", "solve", "repair"])
+        kind = rng.choice(kinds)
         tail.append([kind, who] if kind == "solve" else [kind, who, rng.randrange(1 << 30)])
     plan["ops"] = ops[:at] + tail + ops[at:]
+
+
+def use_start_symbol(plan: Dict[str, Any], rng: random.Random) -> None:
+    """C01 'or the requested start symbol': one solver of the run gets the *whole*
+    grammar plus `start_symbol=<x>`; the constraint is generated (and judged) over the
+    sub-grammar reachable from <x>, and returned trees must be rooted at <x>."""
+    from gen.grammars import prune
+
+    sc = rng.choice(plan["scenarios"])
+    g = sc["grammar"]
+    cands = sorted(nt for nt in g if nt != "<start>")
+    if not cands:
+        return
+    nt = rng.choice(cands)
+    g2 = prune(dict(g, **{"<start>": [nt]}))
+    if not g2 or len(g2) < 3:
+        return
+    formula = gen_formula(g2, rng, None)
+    text = print_formula(formula)
+    if "<start>" in text:
+        return
+    sc.update(formula=formula, formula_text=text, start_symbol=nt, oracle_grammar=g2)
 
 
 def add_api_ops(ops, n_solvers, rng):
@@ -253,6 +290,8 @@ def build_solver(world: World, sc: Dict[str, Any], monitors: "Monitors"):
         cost_computer=cc,
         fuzzer_factory=fuzzer_factory,
     )
+    if sc.get("start_symbol"):
+        kwargs["start_symbol"] = sc["start_symbol"]
     return ISLaSolver(grammar, sc["formula_text"], **kwargs)
 
 
@@ -399,14 +438,15 @@ def judge_solution(tree, sc: Dict[str, Any], recog: Recognizer) -> Tuple[List[Di
     if not is_closed(m):
         out.append({"clause": "not_closed", "detail": s_isla[:200]})
         return out, info
-    v = validate_tree(m, sc["grammar"], "<start>")
+    root = sc.get("start_symbol") or "<start>"
+    v = validate_tree(m, sc.get("oracle_grammar") or sc["grammar"], root)
     if v:
         out.append({"clause": "not_a_derivation_tree", "detail": v})
         return out, info
     y = tree_yield(m)
     if y != s_isla:
         out.append({"clause": "string_differs_from_yield", "detail": f"{s_isla!r} vs {y!r}"})
-    if len(y) <= 300 and not recog.member(y, "<start>"):
+    if len(y) <= 300 and not recog.member(y, root):
         out.append({"clause": "string_not_in_language", "detail": y[:200]})
     try:
         ok, sinfo = satisfies(m, sc["formula"])
@@ -490,13 +530,16 @@ def _run(plan, world: World, monitors: Monitors, record):
         if sc.get("derived_from") is not None:
             # created later by a "derive" op; shares the list of known inputs with its source
             solvers.append(None)
-            recogs.append(recogs[sc["derived_from"]])
-            hist.append({"terminal": None, "dead": False, "solutions": [], "trees": hist[sc["derived_from"]]["trees"]})
+            recogs.append(Recognizer(sc["grammar"]) if sc.get("derived_grammar") else recogs[sc["derived_from"]])
+            hist.append({"terminal": None, "dead": False, "solutions": [],
+                         "trees": [] if sc.get("derived_grammar") else hist[sc["derived_from"]]["trees"]})
             continue
         world.work.extend(world.op_work * 2)
         try:
             solvers.append(build_solver(world, sc, monitors))
             record["outcomes"].append(["new_solver", i, "ok"])
+            if sc.get("start_symbol"):
+                record["stats"]["start_symbol_solvers"] = record["stats"].get("start_symbol_solvers", 0) + 1
         except SimBudgetExceeded:
             solvers.append(None)
             record["inconclusive"].append(f"construct_budget:{i}")
@@ -506,7 +549,7 @@ def _run(plan, world: World, monitors: Monitors, record):
             sig = exception_signature(exc)
             record["inconclusive"].append(f"construct_exc:{sig['type']}:{sig['site']}:{sig['message']}")
             record["outcomes"].append(["new_solver", i, "exc", sig["type"], sig["site"]])
-        recogs.append(Recognizer(sc["grammar"]))
+        recogs.append(Recognizer(sc.get("oracle_grammar") or sc["grammar"]))
         hist.append({"terminal": None, "dead": False, "solutions": [], "trees": []})
 
     from engines import apiops
@@ -531,7 +574,20 @@ def _run(plan, world: World, monitors: Monitors, record):
                 continue
             world.work.extend(world.op_work * 2)
             try:
-                solvers[i] = src_solver.copy_without_queue(formula=Some(scenarios[i]["formula_text"]))
+                if scenarios[i].get("derived_grammar"):
+                    sci = scenarios[i]
+                    extra = {}
+                    if sci["cost"]["strategy"] != "real":
+                        # a cost computer is bound to a grammar: the scheduler seam for the new one
+                        from grammar_graph import gg
+                        from isla.solver import CostSettings, CostWeightVector, GrammarBasedBlackboxCostComputer
+
+                        real_cc = GrammarBasedBlackboxCostComputer(
+                            CostSettings(CostWeightVector(*sci["cost"]["weights"]), k=sci["cost"]["k"]), gg.GrammarGraph.from_grammar(sci["grammar"]))
+                        extra["cost_computer"] = Some(SimCostComputer(real_cc, sci["cost"]["strategy"], sci["cost"]["seed"] + 1, world.log))
+                    solvers[i] = src_solver.copy_without_queue(grammar=Some(sci["grammar"]), formula=Some(sci["formula_text"]), **extra)
+                else:
+                    solvers[i] = src_solver.copy_without_queue(formula=Some(scenarios[i]["formula_text"]))
                 record["outcomes"].append(["derive", i, "ok"])
                 stats["derived_solvers"] = stats.get("derived_solvers", 0) + 1
             except SimBudgetExceeded:
